@@ -210,6 +210,20 @@ CLAIMED = {
             "The parser-mode client over-approximates tree construction by a stack discipline. Inputs containing '{' are excluded "
             "(Clark-notation ambiguity in ElementTree). Two dom findings are named deviations of DomStore; etree-reparent-tail-none is "
             "shown unreachable from parser patterns within bounds.", "5/C04"),
+    "C10": ("model_checking",
+            "TLA+ spec Mxss composing Pipeline (both parses), Sanitizer, OptionalTags and Serializer by INSTANCE, with SafeTree (the "
+            "C09 predicate lifted to trees) and Corresponds (re-parsed elements vs passed tags); TLC theorem on the intended design "
+            "over the mutation-XSS alphabet x first-parse modes x option vectors x re-parse modes; exact replay through the real "
+            "parse->sanitize->serialize->re-parse pipeline; recorded real pipelines judged by TLC with attribution by neutralising "
+            "listed constructs (Trace_Mxss)",
+            "TLC proves SafeTree and Corresponds on the intended design for every input of up to 2-4 fragments of a 30-fragment mXSS "
+            "alphabet x 3 first-parse modes x 3 option vectors x 6 re-parse modes; every code-faithful behaviour is replayed through "
+            "the real pipeline (output text and every re-parsed tree compared exactly) and thousands of recorded pipelines (random "
+            "options, 14 first-parse and 26 re-parse contexts, both scripting values, both builders) are judged by TLC; each "
+            "rejection must disappear when a listed construct is neutralised in the real code, otherwise it is a violation.",
+            "The judge makes no prediction of its own: fidelity of the parser, serializer and sanitizer models comes from C01, C08, C09 "
+            "and the exact replay. Five known findings, two of which need non-default allow-lists. The list of parser-made elements in "
+            "Corresponds and the dispatcher rules in NsValid are ASSUMED (transcribed from memory).", "5/C10"),
 }
 
 NOT_YET = "check not built yet in this round (planned, see DESIGN.md section 5)"
